@@ -241,6 +241,10 @@ enum Call {
     Reopen { ws: usize },
     /// a frame written to events.jsonl behind the store's back (next seq of the thread, no cache told), then a restart
     Raw { th: usize, kind: RawKind },
+    /// n bytes without a final newline put at the end of events.jsonl, the way a write(2) that was cut short (crash, full
+    /// disk) leaves them; the open store is not told.  From here on the history is judged by the oracle alone (prefix,
+    /// whole-frame suffix, read-only / dry-run calls add nothing): the store model has no unterminated tail.
+    TornTail { n: usize, kind: torn::TailKind },
 }
 
 // ---------- faults on one cache file ----------
@@ -790,6 +794,7 @@ struct Outcome {
     plan_cases: Vec<String>,             // CPlan terms (Model/NoopPlan.v): what the call planned vs the model planner
     damaged: Vec<(usize, CFile)>,        // cache files the harness damaged since the caches of that thread were last removed
     cur_ws: usize,                       // the workspace the store is open for
+    torn: bool,                          // the harness put an unterminated tail into events.jsonl (Call::TornTail)
     idx_snaps: Vec<Vec<u8>>,             // the distinct contents index.json has had, oldest first
 }
 
@@ -805,6 +810,7 @@ struct Mon {
     violations: Vec<(String, String)>,
     points: u64,
     growth: Vec<(&'static str, u64)>, // file length minus the length at log.locked, per point
+    torn_by_harness: bool,            // the harness itself left an unterminated tail in the file (Call::TornTail)
 }
 static MON: std::sync::Mutex<Option<Mon>> = std::sync::Mutex::new(None);
 
@@ -813,6 +819,11 @@ fn mon_set_path(p: Option<std::path::PathBuf>) {
     let m = g.get_or_insert_with(Mon::default);
     m.path = p;
     m.base.clear();
+    m.torn_by_harness = false;
+}
+fn mon_set_torn() {
+    let mut g = MON.lock().unwrap_or_else(|e| e.into_inner());
+    g.get_or_insert_with(Mon::default).torn_by_harness = true;
 }
 fn mon_take_growth() -> Vec<(&'static str, u64)> {
     let mut g = MON.lock().unwrap_or_else(|e| e.into_inner());
@@ -844,7 +855,7 @@ fn install_hook() {
         let cls = "partial_frame_in_file_during_append".to_string();
         match name {
             "log.locked" => {
-                if !whole_lines(&cur) {
+                if !whole_lines(&cur) && !m.torn_by_harness {
                     m.violations.push((format!("at {name}: the log ends in an unterminated line ({} bytes) when an append starts", cur.len()), "unterminated_line_before_append".into()));
                 }
                 m.base = cur;
@@ -941,7 +952,8 @@ fn apply_call(env: &mut Env, call: &Call, out: &mut Outcome, dist: &mut Option<&
     let before = env.log_bytes();
     // the log as parsed at the end of the previous call is reused when the bytes are the same
     let hs = match out.parsed.take() {
-        Some((b, h)) if b == before => h,
+        Some((b, h)) if b == before && !out.torn => h,
+        _ if out.torn => torn::parse_log_lenient(&before), // the frames of the lines that parse
         _ => parse_log(&before).unwrap_or_default(),
     };
     // (the snapshot of everything else on disk is only needed for calls aimed at an id that names no thread)
@@ -955,6 +967,7 @@ fn apply_call(env: &mut Env, call: &Call, out: &mut Outcome, dist: &mut Option<&
     let mut ensure_idempotent = false;
     let mut ensure_answer: Option<Option<String>> = None;
     let mut aged = false;
+    let mut torn_now: Option<Vec<u8>> = None;
     match call {
         Call::Cap { cp, th, p } => {
             if matches!(cp, Cp::Auto | Cp::AutoSchedule) {
@@ -1107,7 +1120,7 @@ fn apply_call(env: &mut Env, call: &Call, out: &mut Outcome, dist: &mut Option<&
                 d.bump(&format!("aged_by_ms={ms}"));
                 d.bump_by("aged_files_rewritten", files);
             }
-            if stamped != frames_before {
+            if stamped != frames_before && !out.torn {
                 out.violations.push((format!("harness: ageing re-stamped {stamped} of {frames_before} frames"), "harness_age_failed".into()));
             }
         }
@@ -1126,6 +1139,19 @@ fn apply_call(env: &mut Env, call: &Call, out: &mut Outcome, dist: &mut Option<&
             out.coq_calls.push(format!("DReopen {ws}"));
             if let Some(d) = dist.as_deref_mut() {
                 d.bump(&format!("reopen_for_workspace={ws}"));
+            }
+        }
+        Call::TornTail { n, kind } => {
+            let (bytes, _) = torn::torn_bytes(*n, *kind, 7);
+            if !torn::put_torn_tail(&env.log_path(), &bytes) {
+                out.violations.push(("harness: could not write the torn tail".into(), "harness_torn_tail_failed".into()));
+            }
+            out.torn = true;
+            mon_set_torn();
+            torn_now = Some(bytes);
+            out.coq_calls.push("D KDerivedFault".into());
+            if let Some(d) = dist.as_deref_mut() {
+                d.bump("torn_tail_in_a_store_history");
             }
         }
         Call::Raw { th, kind } => {
@@ -1165,13 +1191,28 @@ fn apply_call(env: &mut Env, call: &Call, out: &mut Outcome, dist: &mut Option<&
     if aged {
         // the harness itself rewrote the timestamps: same length, same frames apart from the time
         out.oracle_checks += 1;
-        let same = after.len() == before.len() && parse_log(&after).map(|h| h.len()).ok() == Some(hs.len());
+        let same = after.len() == before.len() && (out.torn || parse_log(&after).map(|h| h.len()).ok() == Some(hs.len()));
         if !same {
             out.violations.push((format!("harness: ageing changed the shape of the log ({} -> {} bytes)", before.len(), after.len()), "harness_age_failed".into()));
         }
         let _ = mon_drain();
         out.obs.push(parse_log(&after).map(|h| h.len() as u64).unwrap_or(0));
         return;
+    }
+    if let Some(bytes) = torn_now {
+        // the harness's own write: exactly those bytes behind the previous content
+        out.oracle_checks += 1;
+        if after.len() != before.len() + bytes.len() || after[..before.len()] != before[..] || after[before.len()..] != bytes[..] {
+            out.violations.push((format!("harness: the torn tail was not put behind the previous content ({} -> {} bytes)", before.len(), after.len()), "harness_torn_tail_failed".into()));
+        }
+        out.obs.push(0);
+        return;
+    }
+    if out.torn {
+        // over a damaged log the judgements that need the WHOLE truth (nothing to do by truth, the ensure_default answer)
+        // are not made: prefix, whole-frame suffix and "read-only / dry-run adds nothing" stay
+        noop_by_truth = None;
+        ensure_idempotent = false;
     }
     out.oracle_checks += 1;
     let (hv, hp) = mon_drain();
@@ -1233,7 +1274,7 @@ fn apply_call(env: &mut Env, call: &Call, out: &mut Outcome, dist: &mut Option<&
         }
     }
     match parsed_suffix {
-        Ok(fs) if before.is_empty() || !hs.is_empty() => {
+        Ok(fs) if (before.is_empty() || !hs.is_empty()) && !out.torn => {
             let mut all = hs;
             all.extend(fs);
             out.obs.push(all.len() as u64);
@@ -1247,7 +1288,7 @@ fn apply_call(env: &mut Env, call: &Call, out: &mut Outcome, dist: &mut Option<&
 }
 
 fn new_outcome() -> Outcome {
-    Outcome { obs: vec![], coq_calls: vec![], violations: vec![], unmodelled: false, appended_by_silent: 0, oracle_checks: 0, final_frames: 0, big_lines: vec![], hook_points: 0, parsed: None, plan_cases: vec![], damaged: vec![], cur_ws: 0, idx_snaps: vec![] }
+    Outcome { obs: vec![], coq_calls: vec![], violations: vec![], unmodelled: false, appended_by_silent: 0, oracle_checks: 0, final_frames: 0, big_lines: vec![], hook_points: 0, parsed: None, plan_cases: vec![], damaged: vec![], cur_ws: 0, torn: false, idx_snaps: vec![] }
 }
 
 fn run_case(calls: &[Call], dist: Option<&mut RunResult>) -> Outcome {
@@ -1873,6 +1914,48 @@ fn product_cases() -> Vec<(String, Vec<Call>)> {
         }
         c.push(cap(Cp::Append(4), 0, Params::default()));
         out.push((format!("product/{cname}/x[{}]", label.join(",")), c));
+    }
+    out
+}
+
+/// Store histories over a log with an unterminated tail: a prepared state, the tail, a RESTART, every core read-only /
+/// dry-run invocation (restart again before some of them), an append, a restart, the reads again, ensure_default.
+fn torn_history_cases(thorough: bool) -> Vec<(String, Vec<Call>)> {
+    use torn::TailKind as T;
+    let states = sweep_states();
+    let content = |n: &str| states.iter().find(|s| s.0 == n).expect("state").1.clone();
+    let tails: Vec<(usize, T)> = if thorough {
+        vec![(1, T::FramePrefix), (40, T::Garbage), (5000, T::GarbageInnerNewline), (8192, T::WholeFrameNoNewline), (65_535, T::FramePrefix), (65_536, T::FramePrefix), (65_537, T::Garbage), (70_000, T::WholeFrameNoNewline), (100_001, T::GarbageInnerNewline), (300_000, T::FramePrefix)]
+    } else {
+        vec![(1, T::FramePrefix), (5000, T::GarbageInnerNewline), (65_536, T::FramePrefix), (70_000, T::WholeFrameNoNewline), (300_000, T::Garbage)]
+    };
+    let mut out = vec![];
+    for (k, cname) in ["base", "inflight_job", "all_cut_points_checkpointed", "children_inflight_on_child"].iter().enumerate() {
+        for (j, (n, kind)) in tails.iter().enumerate() {
+            if !thorough && (k + j) % 2 == 1 {
+                continue;
+            }
+            let mut c = content(cname);
+            c.push(Call::TornTail { n: *n, kind: *kind });
+            c.push(Call::Restart);
+            for (i, call) in core_param_sweep(0).into_iter().enumerate() {
+                if i % 9 == 4 {
+                    c.push(Call::Restart);
+                }
+                c.push(call);
+            }
+            c.push(cap(Cp::Append(4), 0, Params::default()));
+            c.push(cap(Cp::Append(8), 0, Params::default()));
+            c.push(Call::Restart);
+            c.extend(core_param_sweep(0));
+            c.push(cap(Cp::EnsureDefault, 0, Params::default()));
+            c.push(cap(Cp::List, 0, Params::default()));
+            c.push(Call::Fault { x: Fault::Delete, th: 0 });
+            c.push(Call::Restart);
+            c.extend(core_param_sweep(0));
+            c.push(cap(Cp::Append(4), 0, Params::default()));
+            out.push((format!("torn_tail/{cname}/{n}_{kind:?}"), c));
+        }
     }
     out
 }
@@ -2604,8 +2687,17 @@ fn main() {
     let mut plan_seen: std::collections::HashSet<String> = Default::default();
     let mut plan_terms: Vec<(String, String)> = vec![];
     let mut all: Vec<(String, Vec<Call>)> = sweep_cases(a.thorough());
+    all.extend(torn_history_cases(a.thorough()));
     for i in 0..n {
-        all.push((format!("random/{i}"), gen_case(&mut r, i % 8 == 7)));
+        let mut c = gen_case(&mut r, i % 8 == 7);
+        // one random history in ten goes on over a torn log: a tail of a random size and kind + a restart somewhere in it
+        if i % 10 == 9 {
+            let at = 1 + r.below(c.len() as u64) as usize;
+            let n = *r.pick(&[1usize, 2, 39, 64, 1023, 5000, 8191, 8192, 8193, 65_535, 65_536, 65_537, 70_001, 100_000, 262_145]);
+            c.insert(at.min(c.len()), Call::TornTail { n, kind: *r.pick(&torn::TAILKINDS) });
+            c.insert((at + 1).min(c.len()), Call::Restart);
+        }
+        all.push((format!("random/{i}"), c));
     }
     for (i, (label, calls)) in all.iter().enumerate() {
         let got = std::panic::catch_unwind(std::panic::AssertUnwindSafe(|| run_case(calls, Some(&mut res))));
@@ -2652,6 +2744,8 @@ fn main() {
                 res.bump_by("planner_calls_compared_with_model_before_dedup", o.plan_cases.len() as u64);
                 if o.unmodelled {
                     res.bump("cases_with_failed_job_not_compared");
+                } else if o.torn {
+                    res.bump("store_histories_with_a_torn_tail_oracle_only");
                 } else if !a.oracle_only() {
                     let term = format!("CDecide {{| c3_calls := [{}]; c3_expect := {} |}}", o.coq_calls.join("; "), coq_list_n(&o.obs));
                     let id = w.push(term);
